@@ -26,7 +26,7 @@ def index_classes(ln, rev):
     inr = [('pos%d' % v, ['NUMK0=%dLL' % v]) for v in range(0, ln)]
     return inr + [('below', ['NUMC0=(v<0)']), ('above', ['NUMC0=(v>=%dLL)' % ln])]
 
-def step_job(ctx, prefix, op, kinds, oracle=(), cap=3, nsteps=1, op2=None, extra_defs=(), timeout=300, mem=5, desc='', tag='', cuts=None, checks=(), typed_arrays=0):
+def step_job(ctx, prefix, op, kinds, oracle=(), cap=3, nsteps=1, op2=None, extra_defs=(), timeout=300, mem=5, desc='', tag='', cuts=None, checks=(), typed_arrays=0, unwind=None):
     ops = opcodes(ctx)
     if op not in ops or (op2 and op2 not in ops):
         return None
@@ -50,7 +50,7 @@ def step_job(ctx, prefix, op, kinds, oracle=(), cap=3, nsteps=1, op2=None, extra
         cuts = ['dealloc_mapping', 'dealloc_class', 'dealloc_funp', 'free_mapping', 'free_class']
     # the real error raising code is replaced by the error model of world_err.c (type_name, save/restore_context stay real)
     cuts = list(cuts) + ['error', 'error_handler', 'bad_arg', 'bad_argument', 'throw_error', 'mudlib_error_handler', 'debug_message_with_location']
-    return dict(name=name, cuts=cuts, checks=['--bounds-check', '--pointer-check', '--div-by-zero-check'] + list(checks), srcs=['@harness/vm/vm_step.c'] + REAL, stubs=stubs, defs=defs, unwind=(cap + 3 if not typed_arrays else max(cap + 3, typed_arrays + 2)),
+    return dict(name=name, cuts=cuts, checks=['--bounds-check', '--pointer-check', '--div-by-zero-check'] + list(checks), srcs=['@harness/vm/vm_step.c'] + REAL, stubs=stubs, defs=defs, unwind=(unwind if unwind is not None else cap + 3),
                 unwindset=['mk_value.%d:10' % k for k in range(8)] + ['pop_n_elems.0:12', 'harness.0:13', 'harness.1:4', 'harness.2:4', 'harness.3:4', 'post_step.0:9', 'post_step.1:9', 'post_step.2:4', 'strlen.0:%d' % (cap + 30), 'type_name.0:12', 'strcpy.0:32', 'strcat.0:32', 'strncpy.0:32','verif_fmt.0:26', 'verif_fmt.1:26', 'verif_fmt.2:26', 'verif_fmt.3:26', 'verif_fmt.4:26', 'verif_fmt.5:26', 'verif_fmt.6:26', 'verif_fmt.7:26', 'verif_fmt.8:26', 'verif_fmt.9:26', 'verif_fmt.10:26', 'verif_fmt.11:26', 'free_svalue:2', 'dealloc_array:2', 'dealloc_class:2', 'dealloc_mapping:2', 'dealloc_funp:1', 'error:1', 'verif_on_error:1', 'post_step:1'],
                 flags=['--object-bits', '11'], targets=['eval_instruction'], restrict_fp=['free_svalue.function_pointer_call.1/vm_error_handler'], timeout=timeout, mem_gb=mem, opt_witness=['lpc_error_path', 'step_completed', 'returned_from_eval_instruction'],
                 desc=desc or ('one step of the real eval_instruction: %s%s on operands (%s, bottom->top), all values of each kind' % (op, (' then ' + op2) if op2 else '', ', '.join(kinds))),
